@@ -57,11 +57,11 @@ EXTRA = [   # nested / context-key-bound combinations that the Library kinds do 
     ({"processor": "VUndocSource", "derive": {"parameter_sweep": {"parameters": {"a": "t"}, "variables": {"t": {"values": [1.0]}}, "collection": "FloatDataCollection"}}},
      "none", "coll", {"t_values"}),
     # data types nested in another class (qualified name 'VLab.Reading'): plain, sliced and swept components
-    ({"processor": "VNestedSource"}, "none", "reading", set()),
-    ({"processor": "VNestedSink"}, "reading", "reading", set()),
-    ({"processor": "VNestedProbe", "context_key": "np"}, "reading", "reading", {"np"}),
-    ({"processor": "VNestedOperation"}, "reading", "reading", set()),
-    ({"processor": "VNestedProbe", "context_key": "np", "derive": {"parameter_sweep": {"parameters": {"factor": "t"}, "variables": {"t": {"values": [1.0, 2.0]}}}}},
+    ({"processor": "VReadingSource"}, "none", "reading", set()),
+    ({"processor": "VReadingSink"}, "reading", "reading", set()),
+    ({"processor": "VReadingProbe", "context_key": "np"}, "reading", "reading", {"np"}),
+    ({"processor": "VReadingOperation"}, "reading", "reading", set()),
+    ({"processor": "VReadingProbe", "context_key": "np", "derive": {"parameter_sweep": {"parameters": {"factor": "t"}, "variables": {"t": {"values": [1.0, 2.0]}}}}},
      "reading", "reading", {"np", "t_values"}),
     # model fitting: bound output key, default output key, the variable mapping with the key omitted / null / a nested path
     ({"processor": "ModelFittingContextProcessor", "parameters": {"fitting_model": "model:VSumModel", "context_key": "fitc"}}, "any", "any", {"fitc"}),
